@@ -638,7 +638,7 @@ func checkC17(c *core.Ctx) {
 	if c.Thorough() {
 		depth = 6
 	}
-	c.Bound("histories", fmt.Sprintf("BFS depth %d over %d operations (two documents x three texts, full / delta with current, previous, unknown, empty id / range / close / reopen, second server)", depth, len(ops)))
+	c.Bound("histories", fmt.Sprintf("BFS depth %d over %d operations (two documents x %d texts, full / delta with current, previous, unknown, empty id / range / close / reopen, second server)", depth, len(ops), len(c17Variants)))
 	st := bfs.Search(len(ops), depth, 400000, "init", func(path []int) (string, bool) {
 		if c.NShards > 1 && path[0]%c.NShards != c.Shard {
 			return "", false
